@@ -63,6 +63,9 @@ def _list_items(cp):
 
   # [Table-Form:NAME] sections
   table_form_sections = [s for s in cp.raw_config_parser.sections() if _TableFormSection.is_relevant_section(s)]
+  # ... a section headed by the bare '[Table-Form]' names no table form and is no orphan section either: list it here
+  if cp.raw_config_parser.has_section("Table-Form"):
+    table_form_sections.append("Table-Form")
   items.extend(_parse_raw(cp, table_form_sections))
 
   orphan_sections = cp.orphan_sections
